@@ -86,7 +86,7 @@ ResetVars(st) ==
     /\ tr' = st.tr /\ st.tr = "none" /\ trSig' = 0
     /\ out' = "init" /\ pen' = {} /\ ret' = <<>>
     /\ usedBy' = [t \in Token |-> {}]
-    /\ pchg' = FALSE
+    /\ pchg' = [p |-> FALSE, a |-> FALSE, d |-> FALSE]
 
 \* a step this property does not decide: nothing is claimed, Sync adopts what was observed
 Skip == /\ out' = Outcome /\ pen' = {} /\ ret' = <<>>
@@ -134,12 +134,16 @@ TEndBlock ==
 
 \* environment: governance changed signing_period (always applied as given)
 TSetPeriod == IF Line.a.p = params.period THEN Skip ELSE SetPeriod(Line.a.p)
+TSetMaxDE == IF Line.a.m = params.maxDE THEN Skip ELSE SetMaxDE(Line.a.m)
+TSetMaxAtt == IF Line.a.m = params.maxAtt THEN Skip ELSE SetMaxAtt(Line.a.m)
 
 Act ==
     /\ ph = "act" /\ l <= Len(TraceLog)
     /\ ph' = "sync" /\ l' = l
     /\ CASE Line.e = "Reset"           -> ResetVars(Line.s)
          [] Line.e = "SetPeriod"       -> TSetPeriod
+         [] Line.e = "SetMaxAtt"       -> TSetMaxAtt
+         [] Line.e = "SetMaxDE"        -> TSetMaxDE
          [] Line.e = "EndBlock"        -> TEndBlock
          [] Line.e = "Request"         -> TRequest
          [] Line.e = "SubmitDEs"       -> IF "SubmitDEs" \in Owned THEN TSubmitDEs ELSE Skip
